@@ -48,6 +48,6 @@ func runC16(c Case, st *Stats) error {
 func init() { register("C16", runC16) }
 
 func TestC16(t *testing.T) {
-	p := wlParams{Modes: []int{0, 0, 1}, Segs: []int64{120, 200, 333}, MaxSteps: 12, ReopenPct: 5, MergePct: 22, FailPct: 6, Structs: true}
+	p := wlParams{Modes: []int{0, 0, 1}, Segs: []int64{120, 200, 333}, MaxSteps: 12, ReopenPct: 5, MergePct: 22, FailPct: 6, FaultPct: 10, Structs: true}
 	runProperty(t, "C16", genWorkload(p), runC16)
 }
